@@ -252,6 +252,9 @@ def payload_slots(mod, session):
             if CUR_LAYOUT >= 2 and v % 16 == 7:
                 mod.data = bytes(mix(v, j) & 0xFF for j in range(64)) * (256 + (v >> 8) % 512)  # 16-48 KiB
                 return
+            if CUR_LAYOUT >= 2 and v % 64 == 9:
+                mod.data = bytes(mix(v, j) & 0xFF for j in range(256)) * (4200 + (v >> 8) % 2000)  # 1-1.5 MiB
+                return
             mod.data = None if v % 5 == 0 else bytes_from(v, 512)
 
         s.append(("data", set_data))
@@ -1024,6 +1027,11 @@ def generated_file(spec):
     ops += gen_ops(r, spec.get("n", 25), WEIGHTS_V1 if spec.get("layout", 1) < 2 else None)
     for op in ops:
         s.apply(op)
+    if spec.get("huge"):
+        # size swarm at file level: a project of several MiB (a Sampler with one long sample)
+        smp_mod = s.project.new_module(M.Sampler)
+        sm = smp_mod.samples[0] = Sampler.Sample()
+        sm.data = bytes(mix(spec["seed"], j) & 0xFF for j in range(1024)) * (5 * 1024)
     if spec.get("big"):
         # size swarm at file level: an embedded project of tens of KiB (a VorbisPlayer with data inside a MetaModule)
         mm = next((m for m in s.mods() if isinstance(m, MetaModule)), None) or s.project.new_module(MetaModule)
